@@ -725,6 +725,10 @@ theorem GRel.asChar {tail : List UInt8} (n : Nat) :
     GRel tail (asChar n) (asChar n) := by
   unfold Parse.asChar; gsim
 macro_rules | `(tactic| gsim_lemma) => `(tactic| with_reducible exact GRel.asChar ..)
+theorem GRel.asEscapedChar {tail : List UInt8} (n : Nat) :
+    GRel tail (asEscapedChar n) (asEscapedChar n) := by
+  unfold Parse.asEscapedChar; gsim
+macro_rules | `(tactic| gsim_lemma) => `(tactic| with_reducible exact GRel.asEscapedChar ..)
 theorem GRel.decodeElispCharEscape {tail : List UInt8} {f f' : Nat} (h : f' ≤ f) :
     GRel tail (decodeElispCharEscape f) (decodeElispCharEscape f') := by
   unfold Parse.decodeElispCharEscape; gsim
